@@ -28,11 +28,12 @@ from ..core import Family
 
 ID = "C10"
 READY = True
-LEAN_TARGETS = ["NauyacaVerif.Props.C10"]
+LEAN_TARGETS = ["NauyacaVerif.Props.C10", "NauyacaVerif.Props.Translated"]
 THEOREMS = [f"NauyacaVerif.C10.{t}" for t in (
     "bucket_inv", "obs_is_run", "private_bucket", "window_bound", "window_bound_length", "refuse_only_empty",
     "noninterference", "cleanup_refines", "cleanup_keeps_allowance",
-    "age_tie", "period_tie", "evict_tie", "atomic_tie", "line_tie")]
+    "age_tie", "period_tie", "evict_tie", "atomic_tie", "line_tie")] + ['NauyacaVerif.Translated.consume_eq', 'NauyacaVerif.Translated.consume_frame']
+TRANSLATED = ['consume']
 EXTRACT = ["cleanupPeriod", "cleanupAge", "evictOnlyRefilled", "limiterAtomic"]
 EXTRACT_EXPECT = {"evictOnlyRefilled": True, "limiterAtomic": True}
 ASSUMPTIONS = [
